@@ -222,6 +222,9 @@ class BasicReadAssignmentLoader:
 def construct_models_in_parallel(sample, chr_id, dump_filename, args, read_groups):
     logger.info("Processing chromosome " + chr_id)
     construct_models = not args.no_model_construction
+    # reference isoforms already reported are tracked per chromosome; the class-level set must not
+    # carry over from an earlier chromosome task or from another experiment processed by the same process
+    GraphBasedModelConstructor.detected_known_isoforms = set()
     current_chr_record = Fasta(args.reference, indexname=args.fai_file_name)[chr_id]
     multimapped_reads = defaultdict(list)
     multimap_loader = open(dump_filename + "_multimappers_" + chr_id, "rb")
